@@ -120,6 +120,9 @@ Definition min_num_nulls (how_any : bool) (thresh : option Z) (nchk : Z) : Z :=
   | None => if how_any then 1 else nchk
   end.
 
+Definition dropna_guard (how_any : bool) (thresh : option Z) (chk : list string) : bool :=
+  min_num_nulls how_any thresh (Z.of_nat (List.length chk)) <=? Z.of_nat (List.length chk).
+
 Section ModelX.
   Variable c : cfg.
   Variable deco : string -> option opk.      (* decorator of each DataFrame method, generated *)
@@ -172,7 +175,8 @@ Section ModelX.
             let d4 := step c d3 (OWhere (EBin Lt (ECol "num_nulls")
                                            (ELit (VInt (min_num_nulls how thresh (Z.of_nat (List.length chk))))))) in
             let d5 := step c d4 (OSelect (passthrough all)) in
-            Some (set_last d5 new)
+            (* "The minimum num nulls for dropna must be less than or equal to the number of columns": RuntimeError *)
+            if dropna_guard how thresh chk then Some (set_last d5 new) else None
         | None => None
         end
     | XDropDup _ | XUnpivot _ _ _ _ | XAgg _ _ => None
